@@ -71,8 +71,9 @@ Record proofinfo := mkproof {
   pok_fwd : bool;          (* TxoProof::verify for this request against the forward watches *)
   pok_rev : bool;          (* ... against the reverse watches (watches and seen) *)
   attesters : list N;      (* keys of the attestations carried by the proof *)
-  deltas : list (list N * list N * N)
-                           (* per listener, in key order: outpoints to add, to remove, new monitor state *)
+  deltas : option (list (list N * list N * N))
+                           (* per listener, in key order: outpoints to add, to remove, new monitor
+                              state; None: a listener panics on these transactions *)
 }.
 
 Inductive req :=
@@ -233,13 +234,15 @@ Definition set_mon (sl : slot) (m : N) : slot := mkslot (skey sl) (stxw sl) (swa
 (** * Streaming *)
 Inductive fres := FOk | FErr | FTrap.
 
-(** [maybe_finish_decoding_block] *)
+(** [maybe_finish_decoding_block].  [BlockDecoder::finish] asserts the merkle root of what it
+    has seen before it would report [IncompleteData], so an incomplete stream is a panic, not
+    a refusal; the only refusal left is a complete block under another hash. *)
 Definition finish_decode (s : tstate) (p : proofinfo) (expected : N) : fres :=
   match decoding s with
   | None => if is_ext p then FTrap else FOk
   | Some (id, complete) =>
       if negb (is_ext p) then FTrap
-      else if negb complete then FErr
+      else if negb complete then FTrap
       else if id =? expected then FOk else FErr
   end.
 
@@ -274,12 +277,12 @@ Definition add (v : variant) (c : cfg) (s : tstate) (h : hdr) (p : proofinfo) : 
               match pty p with
               | PBlock => (reject v s p true, Err InvalidProof)
               | _ =>
-                  match add32 (prof c) (height s) 1 with
-                  | Trap => (s, Abort)
-                  | Val h' =>
+                  match deltas p, add32 (prof c) (height s) 1 with
+                  | Some ds, Val h' =>
                       (mkts (tip s :: firstn (MAX_REORG_SIZE - 1) (hdrs s)) (h, fh) h'
-                            (zipw upd_add (slots s) (deltas p)) None
+                            (zipw upd_add (slots s) ds) None
                             (if is_ext p then false else mon_dec s), Ok)
+                  | _, _ => (s, Abort)
                   end
               end
           end
@@ -317,9 +320,13 @@ Definition remove (v : variant) (c : cfg) (s : tstate) (prev : headers) (p : pro
                   match pty p with
                   | PBlock => (reject v s1 p true, Err InvalidProof)
                   | _ =>
-                      (mkts (tl (hdrs s)) prev hm1
-                            (zipw upd_remove (slots s) (deltas p)) None
-                            (if is_ext p then false else mon_dec s), Ok)
+                      match deltas p with
+                      | Some ds =>
+                          (mkts (tl (hdrs s)) prev hm1
+                                (zipw upd_remove (slots s) ds) None
+                                (if is_ext p then false else mon_dec s), Ok)
+                      | None => (s1, Abort)
+                      end
                   end
               end
           end
@@ -396,3 +403,78 @@ Fixpoint linked (child : hdr) (l : list headers) : Prop :=
   end.
 Definition window_ok (s : tstate) : Prop :=
   linked (fst (tip s)) (hdrs s) /\ (length (hdrs s) <= MAX_REORG_SIZE)%nat.
+
+(** at least half of the trusted oracles attested *)
+Definition half_attesting (c : cfg) (p : proofinfo) : Prop :=
+  N.of_nat (length (trusted c)) <= 2 * key_matches c p.
+
+(** what a block must satisfy to go on top of [prev] (add) or to come off down to [prev]
+    (remove): it links to [prev], meets its own target, obeys the difficulty rules at that
+    height, and its unspent-output proof verifies against the watches with attestations from
+    at least half of the trusted oracles -- unless [prev] was recorded without a filter
+    header (identity 0), the documented upgrade path, or the operator's policy filter
+    downgrades policy-chain-validated to a warning *)
+Definition block_valid (c : cfg) (ht : N) (prev hd : headers) (p : proofinfo) (is_remove : bool) : Prop :=
+  hprev (fst hd) = hid (fst prev) /\
+  hpow (fst hd) = true /\
+  chain_rule c ht (fst prev) (fst hd) = ROk /\
+  (snd prev = 0 \/ warn c = true \/ (pok p is_remove = true /\ half_attesting c p)).
+
+(** the watches of all listeners (everything in a slot but the monitor's own state) *)
+Definition watch_view (s : tstate) : list (N * list N * list N * list N) :=
+  map (fun sl => (skey sl, stxw sl, swatch sl, sseen sl)) (slots s).
+
+(** what an accepted request did *)
+Definition accepted_ok (c : cfg) (s : tstate) (r : req) (s' : tstate) : Prop :=
+  match r with
+  | Add h p =>
+      exists fh,
+        pfh p = Some fh /\
+        block_valid c (height s) (tip s) (h, fh) p false /\
+        tip s' = (h, fh) /\
+        add32 (prof c) (height s) 1 = Val (height s') /\
+        hdrs s' = tip s :: firstn (MAX_REORG_SIZE - 1) (hdrs s)
+  | Remove prev p =>
+      exists hm1,
+        sub32 (prof c) (height s) 1 = Val hm1 /\
+        block_valid c hm1 prev (tip s) p true /\
+        tip s' = prev /\ height s' = hm1 /\ hdrs s' = tl (hdrs s) /\
+        match hdrs s with
+        | h0 :: _ => prev = h0                 (* the remembered parent, header and filter header *)
+        | [] => allow_deep c = true            (* beyond the window only when explicitly allowed *)
+        end
+  | Chunk _ _ _ _ _ =>
+      hdrs s' = hdrs s /\ tip s' = tip s /\ height s' = height s /\ watch_view s' = watch_view s
+  end.
+
+(** the state in which a refused request leaves the tracker: untouched; for a streamed block
+    (chunks followed by the request) additionally no trace of the stream *)
+Definition settled (r : req) (s : tstate) : tstate := if streamed r then quiesce s else s.
+
+(** requests that are correct with respect to the persisted image of [s] *)
+Definition correct_add (c : cfg) (s : tstate) (h : hdr) (p : proofinfo) : Prop :=
+  (exists fh, pfh p = Some fh) /\ deltas p <> None /\
+  hprev h = hid (fst (tip s)) /\ hpow h = true /\
+  chain_rule c (height s) (fst (tip s)) h = ROk /\
+  proof_rule c (snd (tip s)) p false = true /\
+  height s < U32MAX.
+
+Definition correct_remove (c : cfg) (s : tstate) (prev : headers) (p : proofinfo) : Prop :=
+  deltas p <> None /\
+  supplied_check c s prev = None /\
+  0 < height s /\ height s <= U32MAX /\
+  hprev (fst (tip s)) = hid (fst prev) /\ hpow (fst (tip s)) = true /\
+  chain_rule c (height s - 1) (fst prev) (fst (tip s)) = ROk /\
+  proof_rule c (snd prev) p true = true.
+
+(** after a refusal (of a streamed request, or outside a stream): a correct compact add, a
+    correct compact remove and a correct streamed add -- correct with respect to the state
+    [s1] before the refused request -- are accepted in the state [s2] after it *)
+Definition later_ok (c : cfg) (s1 : tstate) (r : req) (s2 : tstate) : Prop :=
+  (streamed r = true \/ quiet s1) ->
+  (forall h p, pty p = PFilter -> correct_add c s1 h p -> snd (step fixed c s2 (Add h p)) = Ok) /\
+  (forall prev p, pty p = PFilter -> correct_remove c s1 prev p -> snd (step fixed c s2 (Remove prev p)) = Ok) /\
+  (forall h p mons, pty p = PExternal -> correct_add c s1 h p ->
+     exists s3, step fixed c s2 (Chunk (hid h) true true true mons) = (s3, Ok) /\
+                snd (step fixed c s3 (Add h p)) = Ok).
+
